@@ -1061,7 +1061,40 @@ impl ReqFamily for SizeClasses {
     }
 }
 
+
+/// The program families of C02 (every type expression in every position, every enumerator value sequence, every
+/// integer spelling, every string argument, every attribute form in every position, module-less files) through the
+/// request oracle: file 0 is the source, the others are references (odd cases: all are sources).
+pub struct FromPrograms {
+    pub inner: Box<dyn crate::model::run::ProgFamily>,
+    pub stride: u64,
+}
+impl ReqFamily for FromPrograms {
+    fn name(&self) -> String {
+        let n = self.inner.name();
+        let (head, rest) = n.split_once('/').unwrap_or((n.as_str(), ""));
+        format!("programs-{head}/{}{rest}", if self.stride > 1 { format!("every {}th case of: ", self.stride) } else { String::new() })
+    }
+    fn len(&self) -> u64 {
+        (self.inner.len() + self.stride - 1) / self.stride
+    }
+    fn get(&self, idx: u64) -> ReqCase {
+        let c = self.inner.get(idx * self.stride);
+        let n = c.program.len();
+        let files = (0..n).map(|i| (format!("f{i}.slice"), i == 0 || idx % 2 == 1, i)).collect();
+        ReqCase { program: c.program, files, args: vec![], label: c.label }
+    }
+}
+
 pub fn families(tier: &str) -> Vec<Box<dyn Family>> {
-    let v: Vec<Box<dyn ReqFamily>> = vec![Box::new(Docs), Box::new(SizeClasses), Box::new(Packed), Box::new(Singles), Box::new(PairsFam { all_splits: tier != "quick" })];
+    let mut v: Vec<Box<dyn ReqFamily>> = vec![Box::new(Docs), Box::new(SizeClasses), Box::new(Packed), Box::new(Singles), Box::new(PairsFam { all_splits: tier != "quick" })];
+    // C02's families 1..=6 (type expressions x positions, enumerator values, integer spellings, string arguments,
+    // attribute forms x positions, module-less files); quick: about 600 evenly spaced cases of each
+    for (i, f) in crate::model::families::program_families(tier).into_iter().enumerate() {
+        if (1..=6).contains(&i) {
+            let stride = if tier == "quick" { (f.len() / 600).max(1) } else { 1 };
+            v.push(Box::new(FromPrograms { inner: f, stride }));
+        }
+    }
     v.into_iter().map(|f| Box::new(ReqCheck { inner: f }) as Box<dyn Family>).collect()
 }
